@@ -328,7 +328,7 @@ Lemma report_diags_eq : forall v,
   report_diags O nb ob v =
   match addr_verdict is_boiler1 (o_parseaddr O v) with
   | VNoAt => match o_urlscheme O v with
-             | URaise => Crash CValueError
+             | URaise => Ok [DInvalidReport v]
              | UNoScheme => Ok [DInvalidReport v]
              | UScheme => Ok []
              end
@@ -409,7 +409,7 @@ Definition report_raises (v : str) : Prop :=
 
 Definition report_pure (v : str) : list diag :=
   match addr_verdict O nb ob is_boiler1 (o_parseaddr O v) with
-  | VNoAt => match o_urlscheme O v with UNoScheme => [DInvalidReport v] | _ => [] end
+  | VNoAt => match o_urlscheme O v with UScheme => [] | _ => [DInvalidReport v] end
   | VReserved | VDotless => [DInvalidReport v]
   | VBoilerplate => [DBoilerplateReport v]
   | VFine => []
@@ -424,17 +424,10 @@ Proof.
   - apply hmem_false in E. split; auto.
 Qed.
 
-Lemma report_diags_cases : forall v,
-  (report_raises v /\ report_diags O nb ob v = Crash CValueError) \/
-  (~ report_raises v /\ report_diags O nb ob v = Ok (report_pure v)).
+Lemma report_diags_ok : forall v, report_diags O nb ob v = Ok (report_pure v).
 Proof.
-  intro v. rewrite report_diags_eq. unfold report_pure, report_raises.
-  destruct (addr_verdict O nb ob is_boiler1 (o_parseaddr O v)) eqn:E;
-    try (right; split; [|reflexivity]; intros [H _]; apply (verdict_noat is_boiler1) in H; congruence).
-  apply verdict_noat in E. destruct (o_urlscheme O v) eqn:Eu.
-  - right. split; [intros [_ H]; discriminate | reflexivity].
-  - right. split; [intros [_ H]; discriminate | reflexivity].
-  - left. auto.
+  intro v. rewrite report_diags_eq. unfold report_pure.
+  destruct (addr_verdict O nb ob is_boiler1 (o_parseaddr O v)); try reflexivity. destruct (o_urlscheme O v); reflexivity.
 Qed.
 
 Lemma In_report_values : forall fs v, In v (report_values fs) ->
@@ -473,34 +466,18 @@ Proof.
       rewrite (H x (or_introl eq_refl)). reflexivity.
 Qed.
 
-Lemma check_project_cases : forall fs,
+Lemma check_project_eq : forall fs,
   let pivs := values_of (field_name FProject) fs in
   let rs := values_of (field_name FReport) fs in
-  ((exists v, In v (report_values fs) /\ report_raises v) /\ check_project O nb ob fs = Crash CValueError) \/
-  ((forall v, In v (report_values fs) -> ~ report_raises v) /\
-   check_project O nb ob fs =
-   Ok ((if many pivs then [DDuplicateDedicated FProject] else match pivs with [] => [DNoField FProject] | _ => [] end)
-       ++ flat_map (project_diags O) (dedup pivs)
-       ++ (if many rs then [DDuplicateDedicated FReport] else [])
-       ++ (match report_values fs with [] => [DNoField FReport] | _ => [] end)
-       ++ flat_map report_pure (report_values fs))).
+  check_project O nb ob fs =
+  Ok ((if many pivs then [DDuplicateDedicated FProject] else match pivs with [] => [DNoField FProject] | _ => [] end)
+      ++ flat_map (project_diags O) (dedup pivs)
+      ++ (if many rs then [DDuplicateDedicated FReport] else [])
+      ++ (match report_values fs with [] => [DNoField FReport] | _ => [] end)
+      ++ flat_map report_pure (report_values fs)).
 Proof.
   intros fs pivs rs. unfold check_project. fold pivs rs.
-  destruct (ocollect (report_diags O nb ob) (report_values fs)) as [rd|e|c] eqn:E.
-  - right. assert (Hn : forall v, In v (report_values fs) -> ~ report_raises v).
-    { intros v Hv Hr. clear -E Hv Hr. revert rd E. induction (report_values fs) as [|x l IH]; intros rd E; [destruct Hv|].
-      cbn [ocollect] in E. unfold obind in E. destruct (report_diags O nb ob x) as [a| |] eqn:Ex; try discriminate.
-      destruct (ocollect (report_diags O nb ob) l) as [b| |] eqn:El; try discriminate.
-      destruct Hv as [->|Hv]; [|exact (IH Hv b eq_refl)].
-      destruct (report_diags_cases v) as [[_ H]|[H _]]; [congruence | contradiction]. }
-    split; [exact Hn|]. cbn [obind].
-    rewrite (ocollect_pure _ (report_diags O nb ob) report_pure) in E.
-    + injection E as <-. reflexivity.
-    + intros v Hv. destruct (report_diags_cases v) as [[H _]|[_ H]]; [destruct (Hn v Hv H) | exact H].
-  - exfalso. revert E. apply ocollect_no_err. intros v e' H. rewrite report_diags_eq in H.
-    destruct (addr_verdict O nb ob is_boiler1 (o_parseaddr O v)); try discriminate. destruct (o_urlscheme O v); discriminate.
-  - left. apply ocollect_crash in E. destruct E as (v & Hv & H). destruct (report_diags_cases v) as [[Hr Hc]|[_ Hc]]; [|congruence].
-    split; [exists v; auto|]. cbn [obind]. congruence.
+  rewrite (ocollect_pure _ _ report_pure) by (intros; apply report_diags_ok). reflexivity.
 Qed.
 
 Lemma check_translator_eq : forall t fs,
@@ -753,8 +730,7 @@ Qed.
 
 Lemma cls_project : forall O nb ob fs ds d, check_project O nb ob fs = Ok ds -> In d ds -> cls d = 3%nat.
 Proof.
-  intros O nb ob fs ds d E H. destruct (check_project_cases O nb ob fs) as [[_ Hc]|[_ Ho]]; [congruence|].
-  rewrite Ho in E. injection E as <-. unfold project_diags, report_pure in H. in_cases; subst; reflexivity.
+  intros O nb ob fs ds d E H. rewrite check_project_eq in E. injection E as <-. unfold project_diags, report_pure in H. in_cases; subst; reflexivity.
 Qed.
 
 Lemma cls_translator : forall O nb ob t fs ds d, check_translator O nb ob t fs = Ok ds -> In d ds -> cls d = 4%nat.
@@ -823,7 +799,6 @@ Let t := h_template inp.
 
 Lemma project_result : exists pd,
   check_project O nb ob md = Ok pd /\
-  (forall v, In v (report_values md) -> ~ report_raises O v) /\
   pd = (if many (values_of (field_name FProject) md) then [DDuplicateDedicated FProject]
         else match values_of (field_name FProject) md with [] => [DNoField FProject] | _ => [] end)
        ++ flat_map (project_diags O) (dedup (values_of (field_name FProject) md))
@@ -832,7 +807,7 @@ Lemma project_result : exists pd,
        ++ flat_map (report_pure O nb ob) (report_values md).
 Proof.
   destruct (hdr_check_ok _ _ _ _ _ _ _ Hok) as (pd & td & Hp & _ & _). fold md in Hp.
-  destruct (check_project_cases O nb ob md) as [[_ Hc]|[Hn Ho]]; [congruence|]. exists pd. split; [exact Hp|]. split; [exact Hn | congruence].
+  exists pd. split; [exact Hp|]. rewrite check_project_eq in Hp. congruence.
 Qed.
 
 Lemma translator_result :
@@ -859,14 +834,14 @@ Proof.
     [ intros [[_ H]|[(v & _ & _ & H)|[[Ha H]|[[_ H]|[(v & _ & _ & H)|[[Ha H]|[[_ H]|[[Ha H]|(v & _ & H)]]]]]]]]; try discriminate; try exact Ha;
       apply content_type_diags_only in H; destruct H
     | intro Ha; tauto ].
-  - destruct project_result as (pd & Hp & _ & Epd). split.
+  - destruct project_result as (pd & Hp & Epd). split.
     + intros (pd' & E & H). assert (pd' = pd) by congruence. subst pd'. rewrite Epd in H.
       apply in_app_or in H. destruct H as [H|H].
       * apply piece_dup_or_none in H. destruct H as [[_ H]|[H _]]; [discriminate|]. apply values_of_nil. exact H.
       * exfalso. absurd_in H.
     + intro Ha. exists pd. split; [exact Hp|]. rewrite Epd. apply in_or_app. left. apply piece_dup_or_none. right.
       split; [apply values_of_nil; exact Ha | reflexivity].
-  - destruct project_result as (pd & Hp & _ & Epd). rewrite <- report_values_nil. split.
+  - destruct project_result as (pd & Hp & Epd). rewrite <- report_values_nil. split.
     + intros (pd' & E & H). assert (pd' = pd) by congruence. subst pd'. rewrite Epd in H.
       apply in_app_or in H. destruct H as [H|H]; [exfalso; absurd_in H|].
       apply in_app_or in H. destruct H as [H|H]; [exfalso; absurd_in H|].
@@ -900,14 +875,14 @@ Proof.
     [ intros [[Ha H]|[(v & _ & _ & H)|[[_ H]|[[Ha H]|[(v & _ & _ & H)|[[_ H]|[[Ha H]|[[_ H]|(v & _ & H)]]]]]]]]; try discriminate; try exact Ha;
       apply content_type_diags_only in H; destruct H
     | intro Ha; tauto ].
-  - destruct project_result as (pd & Hp & _ & Epd). split.
+  - destruct project_result as (pd & Hp & Epd). split.
     + intros (pd' & E & H). assert (pd' = pd) by congruence. subst pd'. rewrite Epd in H.
       apply in_app_or in H. destruct H as [H|H].
       * apply piece_dup_or_none in H. destruct H as [[H _]|[_ H]]; [|discriminate]. apply many_values. apply many_iff. exact H.
       * exfalso. absurd_in H.
     + intro Ha. exists pd. split; [exact Hp|]. rewrite Epd. apply in_or_app. left. apply piece_dup_or_none. left.
       split; [apply many_iff; apply many_values; exact Ha | reflexivity].
-  - destruct project_result as (pd & Hp & _ & Epd). split.
+  - destruct project_result as (pd & Hp & Epd). split.
     + intros (pd' & E & H). assert (pd' = pd) by congruence. subst pd'. rewrite Epd in H.
       apply in_app_or in H. destruct H as [H|H]; [exfalso; absurd_in H|].
       apply in_app_or in H. destruct H as [H|H]; [exfalso; absurd_in H|].
@@ -1129,36 +1104,28 @@ Qed.
 End HeaderRules.
 
 (* ------------------------------------------------------------------ *)
-(* crashes: the only reachable one is urlparse's ValueError in check_project (D13) *)
+(* no exception escapes: every Crash branch of the model is dead (the rsplit unpack in lib/domains.py is guarded by
+   the '@' test; urlparse's ValueError is caught since the D13 fix) *)
 
 Section NoCrash.
 Variable O : oracles.
 Variable known dedicated nb ob : list str.
 
-(* every Report-Msgid-Bugs-To value that is examined and is not an e-mail address can be split by urlparse *)
-Definition urlparse_total (inp : hinput) : Prop :=
-  forall v, In v (report_values (metadata_of (h_entries inp))) -> ~ report_raises O v.
-
-Lemma hdr_check_crash_iff : forall inp c,
-  hdr_check O known dedicated nb ob inp = Crash c <->
-  c = CValueError /\ exists v, In v (report_values (metadata_of (h_entries inp))) /\ report_raises O v.
+Lemma hdr_check_no_crash : forall inp, exists ds, hdr_check O known dedicated nb ob inp = Ok ds.
 Proof.
-  intros inp c. unfold hdr_check. rewrite <- (check_headers_fst O known dedicated (h_template inp)).
-  destruct (check_headers O known dedicated (h_template inp) (h_entries inp)) as [fs hd]. cbn [fst].
-  destruct (check_project_cases O nb ob fs) as [[Hex Hc]|[Hn Ho]].
-  - rewrite Hc. cbn [obind]. split; [intro H; injection H as <-; auto | intros [-> _]; reflexivity].
-  - rewrite Ho. cbn [obind]. rewrite check_translator_eq. cbn [obind]. split; [discriminate|].
-    intros [_ (v & Hv & Hr)]. destruct (Hn v Hv Hr).
+  intro inp. unfold hdr_check.
+  destruct (check_headers O known dedicated (h_template inp) (h_entries inp)) as [fs hd].
+  rewrite check_project_eq. cbn [obind]. rewrite check_translator_eq. cbn [obind]. eauto.
 Qed.
 
-Lemma hdr_check_no_crash_guarded : forall inp, urlparse_total inp ->
-  exists ds, hdr_check O known dedicated nb ob inp = Ok ds.
+(* a Report-Msgid-Bugs-To value that is not an e-mail address and on which urlparse raises is reported as invalid *)
+Lemma urlparse_failure_reported : forall inp ds v, hdr_check O known dedicated nb ob inp = Ok ds ->
+  In v (report_values (metadata_of (h_entries inp))) -> report_raises O v -> In (DInvalidReport v) ds.
 Proof.
-  intros inp Hg. destruct (hdr_check O known dedicated nb ob inp) as [ds|e|c] eqn:E; [eauto| |].
-  - exfalso. unfold hdr_check in E. destruct (check_headers O known dedicated (h_template inp) (h_entries inp)) as [fs hd].
-    destruct (check_project_cases O nb ob fs) as [[_ Hc]|[_ Ho]]; [rewrite Hc in E; discriminate|].
-    rewrite Ho in E. cbn [obind] in E. rewrite check_translator_eq in E. discriminate.
-  - apply hdr_check_crash_iff in E. destruct E as [_ (v & Hv & Hr)]. destruct (Hg v Hv Hr).
+  intros inp ds v Hok Hv [Hn Hu]. rewrite (hdr_check_in _ _ _ _ _ _ _ _ Hok). cbn [cls].
+  eexists. split; [apply check_project_eq|]. do 4 (apply in_or_app; right).
+  apply in_flat_map. exists v. split; [exact Hv|]. unfold report_pure.
+  apply (verdict_noat O nb ob is_boiler1) in Hn. rewrite Hn, Hu. left. reflexivity.
 Qed.
 
 End NoCrash.
